@@ -72,6 +72,18 @@ CHECKS["C19"] = dict(engine=E2, cat="other", design="DESIGN.md §4 C19",
     technique="CrossHair (z3) over the real multi-file append path on a symbolic filesystem with the failing call index symbolic; replay with fault-injecting open_with/mkdirs on real files",
     text="For every index k of a failing filesystem call before the metadata phase the append raises and no pre-existing file was opened for writing; fault-free, parts precede the summary and names are fresh; a normal return implies the fault was not reached.",
     note="Each feasible k is one path (stated in the evidence). Crash semantics of OS buffers are outside.")
+CHECKS["C08"] = dict(engine=E2, cat="other", design="DESIGN.md §4 C08",
+    technique="CrossHair (z3) over the real partition_on_columns/path_string/join_path and paths_to_cats/val_to_num/read_row_group partition lines with symbolic key values; replay by writing and reading a real hive/drill dataset",
+    text="Path text <-> key value: for all string keys up to the bound (every character except '/' and '=') and integer/bool keys of every digit count, distinct keys give distinct directories and each written path reads back exactly its key, of the same kind, under the original name (hive) or as directory text (drill).",
+    note="Reduced claim: text kinds only (str/int/bool); float and timestamp keys and the pandas groupby are outside. numpy's dtype(t).type is a contract stub; partition_on_columns carries one declared AST rewrite.")
+CHECKS["C14"] = dict(engine=E2, cat="other", design="DESIGN.md §4 C14",
+    technique="CrossHair (z3) over the real metadata_from_many (both branches) and analyse_paths with symbolic row counts, footer lengths and path components",
+    text="Metadata assembly for lists of files: order of row groups (file order, then intra-file), relative paths that rebuild the originals under the common base path, total row count, complete footer fetch for any footer length, schema verification.",
+    note="Reduced claim: metadata assembly only; directory listing, partition typing (C08) and categorical labels across files are outside. ParquetFile / fs.cat are shims.")
+CHECKS["C09"] = dict(engine=E2, cat="other", design="DESIGN.md §4 C09",
+    technique="CrossHair (z3): one inductive step of the real remove_row_groups / _sort_part_names / write_row_groups from a symbolic dataset state satisfying the invariant",
+    text="From any dataset state within the bound that satisfies the invariant (referenced files == files on disk, no duplicates, num_rows = sum) one removal, renumbering or append of the real code re-establishes the invariant and yields the model's row-group list.",
+    note="Lowest-priority, reduced claim: no histories (one step from an arbitrary valid state), <=3 row groups; append='overwrite' is outside.")
 NA = {
     "C17": "dtype/categorical/index prediction vs what pandas allocates: no symbolic model of pandas' allocation is within reach and prediction and allocation share one function; row counts are decided under C06",
     "C20": "quantifies over CPython thread schedules of code running in pandas/numpy/C extensions; CrossHair executes one thread and no engine here gives a semantics for interleaved bytecode; a hand-written interleaving model would not be the real code",
